@@ -1,5 +1,6 @@
 // Helpers shared by the property drivers.
 #pragma once
+#include <signal.h>
 #include "bz.h"
 #include "core.h"
 #include "gen.h"
@@ -31,6 +32,11 @@ inline void use_default_workers(RunCfg &c) {
   for (size_t i = 0; i + 1 < c.argv.size(); i++) if (c.argv[i] == "-n") { c.ncpu = atoi(c.argv[i + 1].c_str()); c.argv.erase(c.argv.begin() + i, c.argv.begin() + i + 2); return; }
 }
 
+// the process environment lbzip2 inherits: any subset of the four signals it handles may arrive blocked (it must unblock them itself)
+inline void random_procenv(Rng &rng, RunCfg &c) {
+  if (rng.below(10) == 0) { static const int sg[] = {SIGINT, SIGTERM, SIGUSR1, SIGUSR2}; for (int s : sg) if (rng.below(2)) c.inherit_mask |= 1ull << s; }
+}
+
 // compression run configuration
 inline RunCfg compress_cfg(Rng &rng, int level, bool seq, int W, bool vary_io) {
   RunCfg c;
@@ -44,6 +50,7 @@ inline RunCfg compress_cfg(Rng &rng, int level, bool seq, int W, bool vary_io) {
     if (rng.below(3) == 0) c.out_frag = random_frag(rng);
   }
   if (W >= 2 && rng.below(6) == 0) random_stall(rng, c.sched, 0);     // "slow node": a worker stalled while it holds a task
+  random_procenv(rng, c);
   c.junk = (uint8_t)(1 + rng.below(255));
   return c;
 }
@@ -69,6 +76,7 @@ inline RunCfg decompress_cfg(Rng &rng, int W, bool knobs, size_t in_bytes, size_
     }
   }
   if (W >= 2 && rng.below(6) == 0) random_stall(rng, c.sched, 1);     // "slow node": a worker stalled while it holds a task
+  random_procenv(rng, c);
   c.junk = (uint8_t)(1 + rng.below(255));
   return c;
 }
